@@ -351,7 +351,9 @@ ReadClauses(cur, e) ==
   IN
   << <<p \o ".read.total", frag => e.out = "value">>,
      \* what comes back is a model at all (the preserve clauses below presuppose it)
-     <<p \o ".read.wellformed", frag /\ ok => WellFormedTree(b)>> >>
+     <<p \o ".read.wellformed", frag /\ ok => WellFormedTree(b)>>,
+     <<"C02.ctcfeatures.doc", frag /\ ok /\ Len(e.ret.ctcfeatures) = Len(cur.m0.ctcs) =>
+           \A i \in DOMAIN cur.m0.ctcs : IsPropT(cur.m0.ctcs[i].ast) => SetOf(e.ret.ctcfeatures[i]) = VarsOf(cur.m0.ctcs[i].ast)>> >>
   \o ReadCommon(e)
   \o Guarded(fmt = "json" /\ frag /\ cur.pj.out # "none",
        << <<"C05.parsejson", ok /\ cur.pj.out = "value" /\ cur.pj.anom = <<>> /\ cur.pj.post = b>> >>)
@@ -372,7 +374,10 @@ ReadRefClauses(cur, e) ==
   THEN << <<p \o ".rejects." \o e.args.broken, e.out # "value">> >>
   ELSE
   << <<p \o ".accepts", e.out = "value">>,
-     <<p \o ".wellformed", ok => WellFormedTree(b)>> >>
+     <<p \o ".wellformed", ok => WellFormedTree(b)>>,
+     \* the features a constraint reports are the names WRITTEN in the document's constraint
+     <<"C02.ctcfeatures.doc", ok /\ Len(e.ret.ctcfeatures) = Len(ref.ctcs) =>
+           \A i \in DOMAIN ref.ctcs : IsPropT(ref.ctcs[i].ast) => SetOf(e.ret.ctcfeatures[i]) = VarsOf(ref.ctcs[i].ast)>> >>
   \o ReadCommon(e)
   \o Guarded(ok /\ WellFormedTree(b),
        IF fmt = "uvl"
